@@ -168,13 +168,37 @@ Definition parse_case (l : list tok) : option (list op * list (list op)) :=
   | _ => None
   end.
 
+(* PURITY <bindings> <threads> <rounds> <iters>: the purity probe (harness/c10_purity.cc, ThreadSanitizer build) of the
+   modelling assumptions "Context values are immutable, shared freely between threads" and "the runtime context is per
+   thread".  In the model operations are functions and every thread has its own world, so the only observation it
+   predicts is PURE; the probe's other observations name the failed clause.  A run-time probe, not a theorem. *)
+Definition is_purity (l : list tok) : bool :=
+  match l with
+  | [t; TZ _; TZ _; TZ _; TZ _] => is_tag "PURITY" t
+  | _ => false
+  end.
+
+Definition spec_purity_ok (obs : list tok) : list tok :=
+  match obs with
+  | [t] => if is_tag "PURE" t then [] else fail "obs:unparsable"
+  | t :: _ => if is_tag "RACE" t then fail "purity:data_race"
+              else if is_tag "DIFFERS" t then fail "purity:result_differs"
+              else if is_tag "HARNESSRACE" t then fail "harness:probe_race"
+              else if is_tag "HANG" t then fail "purity:hang"
+              else if is_tag "CRASH" t then fail "purity:crash"
+              else fail "obs:unparsable"
+  | [] => fail "obs:unparsable"
+  end.
+
 Definition run_model (l : list tok) : list tok :=
+  if is_purity l then [tag "PURE"] else
   match parse_case l with
   | Some (m, ts) => run_case m ts
   | None => bad_case
   end.
 
 Definition run_spec (l obs : list tok) : list tok :=
+  if is_purity l then spec_purity_ok obs else
   match parse_case l with
   | Some (m, ts) => check_case m ts obs
   | None => bad_case
@@ -209,6 +233,7 @@ Fixpoint feats (s : sstate) (ops : list op) (f : feat) : sstate * feat :=
   end.
 
 Definition run_tag (l : list tok) : list tok :=
+  if is_purity l then [tag "purity_probe"] else
   match parse_case l with
   | Some (m, ts) =>
       let (s, f) := feats sstate0 m (mk_feat false false false 0 false) in
